@@ -31,6 +31,9 @@ TIERS = {
                  dict(roots="response", K=3, KV=0, KU=3, shards=24),
                  dict(roots="alias", K=4, KV=0, KU=4, shards=4),
                  dict(roots="unionholder", K=3, KV=0, KU=0, shards=16),
+                 # the same universe through differently configured converters (C19's configurations, judged clause by clause)
+                 dict(roots="all", K=1, KV=1, KU=2, shards=16, cfg="nodetail"),
+                 dict(roots="all", K=1, KV=1, KU=2, shards=16, cfg="second"),
                  dict(roots="all", K=8, KV=0, KU=0, shards=16, simulate=dict(num=40, depth=8))],
 }
 
@@ -59,6 +62,7 @@ def one_shard(args):
     KU = args[8] if len(args) > 8 else 0
     names = args[9] if len(args) > 9 else ()
     sim = args[10] if len(args) > 10 else None
+    conv_cfg = args[11] if len(args) > 11 else "default"
     t0 = time.time()
     states = os.path.join(work, "states-%d.txt" % shard)
     trace = os.path.join(work, "trace-%d.json" % shard)
@@ -82,8 +86,10 @@ def one_shard(args):
             raise MachineryError("Codec.tla generation failed in shard %d:\n%s" % (shard, gen_text[-3000:]))
         sg, sd = common.tlc_stats(gen_text)
     t1 = time.time()
+    denv = pkg_env(pkg_path)
+    denv["VERIF_CONV_CFG"] = conv_cfg
     p = subprocess.run([common.PY, "-m", "harness.codec_driver", states, trace, model], cwd=common.VERIF,
-                       env=pkg_env(pkg_path), stdout=subprocess.PIPE, stderr=subprocess.PIPE)
+                       env=denv, stdout=subprocess.PIPE, stderr=subprocess.PIPE)
     if p.returncode != 0:
         raise MachineryError("driver failed in shard %d:\n%s" % (shard, p.stderr.decode()[-3000:]))
     info = json.loads(p.stdout.decode().strip().splitlines()[-1])
@@ -143,7 +149,7 @@ def run(tier, model=None, pkg_path=None, use_cache=True, passes=None):
         for pi, ps in enumerate(passes):
             d = os.path.join(work, "p%d" % pi)
             os.makedirs(d)
-            jobs += [(ps["K"], ps["KV"], ps["shards"], s, ps["roots"], model, pkg_path, d, ps.get("KU", 0), tuple(ps.get("names", ())), ps.get("simulate")) for s in range(ps["shards"])]
+            jobs += [(ps["K"], ps["KV"], ps["shards"], s, ps["roots"], model, pkg_path, d, ps.get("KU", 0), tuple(ps.get("names", ())), ps.get("simulate"), ps.get("cfg", "default")) for s in range(ps["shards"])]
         with cf.ThreadPoolExecutor(max_workers=common.NCPU) as ex:
             parts = list(ex.map(one_shard, jobs))
     finally:
